@@ -2,7 +2,7 @@
 INIT Init
 NEXT Next
 CONSTANTS
-  OpsAt <- Ops3333
+  OpsAt <- Ops3332
   UNames = {1}
   Vals = {1}
   WithFailed = FALSE
